@@ -195,10 +195,10 @@ type effAnalysis struct {
 	fn       *ssa.Function
 	bind     map[int]constant.Value
 	fbind    map[int][]funcVal_
-	liveRes  []bool                   // which results the caller uses (nil: all)
-	deadLoad map[*ssa.UnOp]bool       // loads that only feed discarded results
-	deadCall map[*ssa.Call]bool       // pure calls that only feed discarded results
-	curMC    *ssa.MakeClosure // the closure whose body is being merged (its bindings are what fv<i> roots denote)
+	liveRes  []bool             // which results the caller uses (nil: all)
+	deadLoad map[*ssa.UnOp]bool // loads that only feed discarded results
+	deadCall map[*ssa.Call]bool // pure calls that only feed discarded results
+	curMC    *ssa.MakeClosure   // the closure whose body is being merged (its bindings are what fv<i> roots denote)
 	res      *Effects
 	orig     map[ssa.Value]Origin
 	consts   map[ssa.Value]constant.Value
